@@ -570,6 +570,12 @@ func c17ColdMain(name, mode string) {
 	switch mode {
 	case "load":
 		v = loadStress(subj, 16, 2)
+	case "gcw":
+		// body of the collector-in-the-window pass (meant for the overlay build, see gcwPass): one goroutine, the
+		// model loaded and Run with every feed (A, B, the batch-1 feed, a call failing inside an operator)
+		if v = loadStress(subj, 1, 1); v == nil {
+			v = stressPass(subj, 1, 6)
+		}
 	default:
 		v = stressPass(subj, 16, 2)
 	}
@@ -589,8 +595,15 @@ func coldRun(name, mode string) string {
 	if err != nil {
 		return ""
 	}
+	return coldRunWith(exe, nil, name, mode)
+}
+
+func coldRunWith(exe string, env []string, name, mode string) string {
 	for attempt := 0; attempt < 3; attempt++ {
 		cmd := exec.Command(exe, "c17-cold", name, mode)
+		if env != nil {
+			cmd.Env = append(os.Environ(), env...)
+		}
 		out, err := cmd.CombinedOutput()
 		text := string(out)
 		if err == nil && strings.Contains(text, "COLD-OK") {
@@ -805,9 +818,10 @@ func checkC17(c *hx.Checker) {
 		"(3) supplementary free-running passes: 16 goroutines x 30 Runs on one shared Model (feeds A, B and the batch-1 feed C interleaved, every fifth Run preceded by a call that fails inside an operator), and 8 goroutines x 10 rounds of NewModelFromBytes+Run, per exploration subject, results compared with the solo result; the same bodies (cold start first) in a separately built -race binary: every race report with a gonnx frame is a violation. "+
 		"(0) global-state pass in a fresh process (nothing warmed up, no self-check): the bytes of every writable package-level symbol of the library inside the check binary (ELF symbol table; %d symbols) are hashed one level deep (map element counts, leading bytes of pointed-to structs and slice backing arrays) before anything runs and after load+Run of every exploration subject (runtime caches and the protobuf descriptor are excluded by name); a change is escalated to 16x150 Runs + 16x60 loads + 80 cold-start processes and reported only if interference is confirmed. "+
 		"(3b) cold-start pass (supplementary): per exploration subject and mode (16 goroutines load+Run / one load then 16 concurrent Runs) fresh processes whose very first use of the library is concurrent; a crash of such a process (e.g. concurrent map writes) or a deviating result is reported. "+
+		"(4) collector-in-the-window pass: a second build of the check binary replaces, through go build -overlay, the four places where gorgonia holds an array address as uintptr ((*Dense).Data, array.Data, storage.AsByteSlice, storage.FromMemory) by copies with a full garbage collection inside the window; one fresh process per subject (GODEBUG=clobberfree=1) loads the model and Runs it with every feed: a caller that lets the owning tensor die inside such a window reads clobbered memory or aborts the runtime on every run (instead of once in a few hundred processes). "+
 		"states = scheduling points visited, transitions = thread steps executed; non-trivial = every exploration and frozen case", len(subs), len(expl), b2, b3, nGlobals())
 	c.Assumptions = []string{"scheduling points are at operator-phase granularity (no hook inside gonnx is needed: Model.GetOperator is an exported field); interleavings inside one phase are covered only for Model-owned state (write trap) and by the supplementary free-running passes",
-		"a thread that blocks on synchronisation of the library itself (a lock held by a thread waiting for the baton) is detected by a 400 ms timeout and taken out of the enabled set until it reappears; from then on threads overlap in real time and that execution is no longer deterministic (never the case on the pinned tree, which has no synchronisation)", "the Go memory model's weak behaviours are not modelled (irrelevant once no shared write exists)", "a fault inside a goroutine spawned by gorgonia cannot be recovered and would abort the check process (reported by run.sh as a failure)"}
+		"a thread that blocks on synchronisation of the library itself (a lock held by a thread waiting for the baton) is recognised by its goroutine state (parked on a mutex / channel at every 50 ms poll for 400 ms; elapsed time alone never counts) and taken out of the enabled set until it reappears; from then on threads overlap in real time and that execution is no longer deterministic (never the case on the pinned tree, which has no synchronisation)", "the Go memory model's weak behaviours are not modelled (irrelevant once no shared write exists)", "a fault inside a goroutine spawned by gorgonia cannot be recovered and would abort the check process (reported by run.sh as a failure)"}
 	// (0) global-state pass (sequential, before any parallel phase): after a warm-up, loading and running a
 	// model must not change any package-level variable of the library. A change is an *indicator* (it may be
 	// legitimately synchronised); it becomes a violation only when the free-running passes confirm interference.
@@ -906,6 +920,57 @@ func checkC17(c *hx.Checker) {
 		c.Note(info, "ok:stress-clean", nil)
 	})
 	racePass(c)
+	gcwPass(c, subs)
+}
+
+// gcwBin: the overlay build in which gorgonia's four uintptr windows contain a forced collection (tools/gcw_overlay.py).
+func gcwBin() string {
+	if b := os.Getenv("VERIF_GCW_BIN"); b != "" {
+		return b // run.sh builds it next to the plain binary, against the same repository tree
+	}
+	return hx.VerifDir() + "/bin/mc-gcw"
+}
+
+var gcwEnv = []string{"GODEBUG=clobberfree=1"}
+
+func init() {
+	replayers["gcw"] = func(raw json.RawMessage) *hx.Violation {
+		var r struct {
+			Subject string `json:"subject"`
+		}
+		json.Unmarshal(raw, &r)
+		if d := coldRunWith(gcwBin(), gcwEnv, r.Subject, "gcw"); d != "" {
+			return &hx.Violation{Kind: "dangling-storage", Detail: d}
+		}
+		return nil
+	}
+}
+
+// gcwPass (4): the garbage collector as an environment the harness decides. gorgonia v0.9.24 passes array addresses
+// around as uintptr in four places ((*Dense).Data, array.Data, storage.AsByteSlice, storage.FromMemory); a caller that
+// lets the owning tensor die before the call returns has its array collected when a collection's stack scan falls into
+// that window - once in a few hundred processes in free-running tests. The overlay build puts a full collection into
+// every such window, and with GODEBUG=clobberfree=1 freed memory is overwritten: a result computed from a dangling
+// array differs from the reference (or the runtime aborts with "found pointer to free object") on EVERY run. One fresh
+// process per subject: load, Run with every feed, compare.
+func gcwPass(c *hx.Checker, subs []*subject) {
+	bin := gcwBin()
+	if _, err := os.Stat(bin); err != nil {
+		c.Extra["gc_window_pass"] = "skipped: bin/mc-gcw not built"
+		return
+	}
+	c.ParallelFor(len(subs), func(i int) {
+		s := subs[i]
+		info := hx.CaseInfo{ID: "gc-window/" + s.Name, Tags: append([]string{"gc-window"}, s.Tags...), NonTrivial: true}
+		if d := coldRunWith(bin, gcwEnv, s.Name, "gcw"); d != "" {
+			c.Note(info, "dangling-storage", &hx.Violation{Kind: "dangling-storage",
+				Detail: "with a garbage collection inside every window in which gorgonia holds an array address as uintptr (overlay build, GODEBUG=clobberfree=1), load + Run of this model: " + d,
+				Replay: map[string]any{"replay_kind": "gcw", "subject": s.Name}})
+			return
+		}
+		c.Note(info, "ok:gc-window-clean", nil)
+	})
+	c.Extra["gc_window_pass"] = fmt.Sprintf("ran on %d subjects", len(subs))
 }
 
 // racePass runs the free-running bodies in the separately built -race binary (bin/mc-race).
